@@ -89,7 +89,7 @@ def r2(ctx):
         ctx.check(mentions_field(args[1], "select_timeout"), "match_operate:timeout", "timeout argument is config.select_timeout: %s" % expr_str(args[1]), body.where(b.idx))
         ctx.check(args[2] == ("capture", "seq") or args[2] == ("param", "seq"), "match_operate:seq", "seq argument is the request's seq: %s" % expr_str(args[2]), body.where(b.idx))
         ctx.check(args[3] in (("capture", "frame_id"), ("param", "frame_id")), "match_operate:frame_id", "frame_id argument: %s" % expr_str(args[3]), body.where(b.idx))
-        ctx.check(args[4][0] == "call" and args[4][1].endswith("ControlCollection::<'a>::hash") or mentions_call(args[4], r"ControlCollection.*::hash$") and mentions_name(args[4], "controls"), "match_operate:hash", "hash argument is controls.hash(): %s" % expr_str(args[4]), body.where(b.idx))
+        ctx.check(args[4][0] == "call" and args[4][1].endswith("ControlCollection::hash") or mentions_call(args[4], r"ControlCollection.*::hash$") and mentions_name(args[4], "controls"), "match_operate:hash", "hash argument is controls.hash(): %s" % expr_str(args[4]), body.where(b.idx))
     # census: SelectBeforeOperate is constructed nowhere else on an execution path
     n = 0
     for bd in prog.bodies.values():
